@@ -20,7 +20,7 @@ def same(got):
 
 
 for seed in range(1, maxseeds + 1):
-    cases = list(mod.gen(random.Random(f"{seed}-{pid}"), mod.N["quick"], "normal"))
+    cases = list(mod.gen(random.Random(f"{seed}-{pid}"), mod.N[os.environ.get("FIND_TIER", "quick")], "normal"))
     results, _ = core.evaluate(mod, cases)
     for r in results:
         if not r["holds"] and same(mod.classify_failure(r)):
